@@ -28,3 +28,11 @@ package tchannel
 //@   property C10
 //@ func (r *Relayer) getDestination(f *lazyCallReq, call RelayCall) (conn *Connection, ok bool, err error)
 //@   property C10
+
+// Further tags (the clauses live in the files named):
+// (relay lazy parser: reads the call req layout positionally -- C06)
+//@ func newLazyCallReq(f *Frame) (cr *lazyCallReq, err error)
+//@   property C06
+// (C16 file: a channel that has started closing tracks no new connection -- C07)
+//@ func (ch *Channel) addConnection(c *Connection, direction connectionDirection) (added bool)
+//@   property C07
